@@ -93,6 +93,44 @@ CLAIMED["C08"] = ("model_checking",
     "TLA+ transcription + TLC (all reachable shapes); transitions replayed into the real heap; logged structure validated by TLC",
     "Heap", "5 C08")
 
+CLAIMED["C01"] = ("model_checking",
+    "SlabTrace.tla accepts an allocate/realloc result only if the block lies inside a region obtained from map() and not returned, is disjoint from every live block and from the region's header, is aligned to the request rounded up to a power of two (>=8, capped at the page size), and reports a stable size >= the request. Checked on every call of random histories over 9 policy configurations (class boundaries, small/large threshold, page rounding, several superblocks) and on the replayed behaviours of the SlabPool model.",
+    'bounds: exhaustive part on the tiny geometry (pagesize 64, slab 256, 4 classes), 1-3 threads, <=7 calls per thread, <=2 failing map() calls; other geometries/sizes sampled; cooperative scheduler yields at mutex and policy calls only (races between them are left to the ThreadSanitizer witness of C05)',
+    'TLA+ property-layer trace spec over API results + every policy/mutex callback, validated by TLC on traces of the real pool; TLA+ lock-granularity model (SlabPool) model-checked and its behaviours (incl. every fault position) replayed into the real pool',
+    "Slab", "5 C01")
+CLAIMED["C02"] = ("model_checking",
+    'SlabTrace.tla checks realloc semantics (null->allocate, 0->free, in place only if it fits, prefix preserved when moved, source kept when it fails), free(null) as a no-op without callbacks, the byte contents of every live block after every call (harness pattern per block), and the footprint bound: a further slab of a class is mapped only when ceil(peak/perSlab) requires it - on every MapOk of single-threaded histories including long churn; the SlabPool model proves the same bound over its closed graph.',
+    'bounds: exhaustive part on the tiny geometry (pagesize 64, slab 256, 4 classes), 1-3 threads, <=7 calls per thread, <=2 failing map() calls; other geometries/sizes sampled; cooperative scheduler yields at mutex and policy calls only (races between them are left to the ThreadSanitizer witness of C05)',
+    'TLA+ property-layer trace spec over API results + every policy/mutex callback, validated by TLC on traces of the real pool; TLA+ lock-granularity model (SlabPool) model-checked and its behaviours (incl. every fault position) replayed into the real pool',
+    "Slab", "5 C02")
+CLAIMED["C03"] = ("model_checking",
+    'SlabTrace.tla checks every policy callback: unmap only of a mapped region with exact base and length, never under a live block, a large free returns its whole reservation, only slab memory remains when no large block lives, the used-page counter moves only with regions (up on take, down by the charged amount on return), poison callbacks inside mapped regions, requested bytes unpoisoned, freed small blocks poisoned except the link word (byte-exact on the small geometries). The policy forwards poisoning to ASan, so the pool touching a poisoned or unmapped byte is an event no action matches.',
+    'bounds: exhaustive part on the tiny geometry (pagesize 64, slab 256, 4 classes), 1-3 threads, <=7 calls per thread, <=2 failing map() calls; other geometries/sizes sampled; cooperative scheduler yields at mutex and policy calls only (races between them are left to the ThreadSanitizer witness of C05)',
+    'TLA+ property-layer trace spec over API results + every policy/mutex callback, validated by TLC on traces of the real pool; TLA+ lock-granularity model (SlabPool) model-checked and its behaviours (incl. every fault position) replayed into the real pool',
+    "Slab", "5 C03")
+CLAIMED["C04"] = ("model_checking",
+    'The SlabPool model lets map() fail nondeterministically (<=2 times) at every position - first slab of a class, additional slab, large frame, the allocate inside a copying realloc; TLC checks that nothing stays locked and the slab accounting is intact, and every such behaviour is replayed on the real pool with the policy failing exactly those calls. SlabTrace.tla demands null iff map failed, the realloc source intact, accounting unchanged, no crash/assertion, and accepts the rest of the history (pool keeps working). Random histories with 15-20% failing maps in addition.',
+    'bounds: exhaustive part on the tiny geometry (pagesize 64, slab 256, 4 classes), 1-3 threads, <=7 calls per thread, <=2 failing map() calls; other geometries/sizes sampled; cooperative scheduler yields at mutex and policy calls only (races between them are left to the ThreadSanitizer witness of C05)',
+    'TLA+ property-layer trace spec over API results + every policy/mutex callback, validated by TLC on traces of the real pool; TLA+ lock-granularity model (SlabPool) model-checked and its behaviours (incl. every fault position) replayed into the real pool',
+    "Slab", "5 C04")
+CLAIMED["C05"] = ("model_checking",
+    'SlabPool.tla models allocate/free/realloc at the granularity of lock operations and policy calls; TLC explores every interleaving of 2 (3) threads incl. two threads finding a class empty and freeing into a slab another allocates from: no double hand-out (slab accounting), policy called without locks, lock order, no deadlock, and under fairness every call returns. The interleavings are replayed with the cooperative scheduler; SlabTrace.tla checks disjointness across threads, locks balanced, policy calls lock-free, every call returns. A ThreadSanitizer witness (free-running threads, frg::ticket_spinlock) covers races between seam points.',
+    'bounds: exhaustive part on the tiny geometry (pagesize 64, slab 256, 4 classes), 1-3 threads, <=7 calls per thread, <=2 failing map() calls; other geometries/sizes sampled; cooperative scheduler yields at mutex and policy calls only (races between them are left to the ThreadSanitizer witness of C05)',
+    'TLA+ property-layer trace spec over API results + every policy/mutex callback, validated by TLC on traces of the real pool; TLA+ lock-granularity model (SlabPool) model-checked and its behaviours (incl. every fault position) replayed into the real pool',
+    "Slab", "5 C05")
+
+CLAIMED["C13"] = ("model_checking",
+    "SeqContainers.tla gives, for vector, small_vector<N>, dyn_array, stack, list and intrusive_list, the effect of "
+    "every operation on two abstract sequences (push/emplace/pop/resize/clear/insert/erase/splice/copy/move/assign/"
+    "swap between the two variables). TLC explores the closed graph (lengths crossing the inline capacity and the "
+    "first growth steps); one history per transition is replayed on the real containers with int and with Tracked "
+    "elements under ASan (exact-size allocator blocks, so out-of-bounds accesses are events no action matches); "
+    "SeqTrace.tla compares size, empty, front/back, indexing, forward and backward iteration and == with the spec "
+    "state. Random histories up to length 5000.",
+    "bounds: lengths <=6 (+ second variable <=1) exhaustively, values {0,1,2}; sampled to length 300-5000; small_vector with N in {1,4}",
+    "TLA+ abstract sequence spec + TLC closed graph; transitions replayed into the real containers; observers validated by TLC",
+    "Seq", "5 C13")
+
 NOT_YET = "check not built yet in this round (see DESIGN.md build order); not claimed until its TLA+ spec and conformance harness exist"
 
 checks, na = [], []
